@@ -44,6 +44,12 @@ func Run(c *common.Ctx) error {
 	if err := streamedFrames(c, c.Rng.Fork()); err != nil {
 		return err
 	}
+	if err := confirmedOnly(c, c.Rng.Fork()); err != nil {
+		return err
+	}
+	if err := damagedForward(c, c.Rng.Fork()); err != nil {
+		return err
+	}
 	for _, km := range [][2]int{{5, 3}, {2, 4}, {3, 3}} {
 		if err := restoreOverOwnHistory(c, c.Rng.Fork(), km[0], km[1]); err != nil {
 			return err
